@@ -63,6 +63,13 @@ fn apply(mut b: Builder, calls: &Value, remote: SocketAddr, local: SocketAddr) -
                 }
             },
             "relay" => b.relay(),
+            // LfsBuilder.SetOther: options the handshake does not depend on ("some" = a value / true, "none" = None / false)
+            "relay_select_host" => b.relay_select_host(opt(arg).map(|v| String::from_abs(v).unwrap_or_default())),
+            "relay_spectator_password" => b.relay_spectator_password(opt(arg).map(|v| String::from_abs(v).unwrap_or_default())),
+            "relay_admin_password" => b.relay_admin_password(opt(arg).map(|v| String::from_abs(v).unwrap_or_default())),
+            "relay_websocket" => b.relay_websocket(opt(arg).is_some()),
+            "connect_timeout" => b.connect_timeout(Duration::from_secs(if opt(arg).is_some() { 7 } else { 5 })),
+            "tcp_nodelay" => b.tcp_nodelay(opt(arg).is_some()),
             "verify_version" => b.verify_version(arg.as_bool().unwrap_or(true)),
             "compressed" => b.compressed(),
             "uncompressed" => b.uncompressed(),
